@@ -5,13 +5,31 @@ MC      MC_Dnssec17 (KeyTag vs two other formulations; Match/Cover over all 5^3 
         base32hex; DS input; RSA/EC public-key encodings and the RRSIG signed octets on hand-computed cases;
         BIND private-key text: every layout template of both kinds of key text is well-formed and means the same key
         fields as the plain one, with markers and with values in their place; hand-written texts with / without final
-        newline, a lost last field, a changed value, a missing format line),
+        newline, a lost last field, a changed value, a missing format line;
+        SPELLINGS: every spelling (Dnssec17!Spellings: the library's form, all \\DDD, \\X where it may stand, the three in
+        turn) of a name is read back by Names!Parse to the same labels; the spread names (p octets over k labels, five
+        octet classes) are valid names of p + k + 1 wire octets whose all-escaped text has 4p + k characters; the family
+        crosses the limit it is built for -- texts of 253..257 characters from names of 65..69 octets, 1004 characters
+        for the longest name there is, never more than 254 for a name of plain letters),
         MC_KeyLife17 (all behaviours <= 5 operations (thorough 6) incl. externally provided keys and RELAYED texts,
         invariant LayoutIrrelevant, non-vacuity witnesses) -- the two run in parallel
-GEN     Gen_Dnssec17 modes keytag / ds / nsec3 / cover / validity and Gen_KeyLife17 -> harness `sec17 replay`
+GEN     Gen_Dnssec17 modes keytag / ds / nsec3 / cover / validity / spell and Gen_KeyLife17 -> harness `sec17 replay`
         (hash values: the spec exports the octets / the iterated-hash plan and term, the harness applies
         crypto/sha1, sha256, sha512 and compares with the real ToDS / HashName)
         DS digest types: 1, 2, 4, the holes beside them 0, 3 (GOST), 5, the first above any table 6, 7, and 127, 128, 255.
+        TEXT IS NOT THE NAME (mode spell; Dnssec17 "Spellings"): HashName, ToDS, Match and Cover are handed a name as
+        text, and their value is a function of the NAME; the limits of a name (63 / 255 octets) say nothing about the
+        length of its text (up to 1004 characters).  Names = Dnssec17!SpreadName(p, k, class): p octets (quick: 1, 5,
+        31, 62, 63, 64, 80, 126, 127, 200, 245, 250; thorough: 42 counts around the same points) over k = 1..5 labels
+        (every valid combination) x the octet classes ctl / high (every octet \\DDD in the library's own form: 63 octets
+        give texts of 253..257 characters), punct (specials, digits), lower, letters x the four spellings.
+          n3     HashName of all four spellings of each name, salt and iterations in turn (key per spelling:
+                 nsec3/hashname:text-longer-than-255 for a long text, :escaped-uppercase for the known class, else plain)
+          ds     ToDS of every spelling as the owner, digest type and key in turn (ds/digest:<hash>:text-longer-than-255,
+                 ds/nil-for-defined-type)
+          cover  Match / Cover of the spread labels below and beside the zone ex.c. x 27 hash orderings (all shapes
+                 and positions) x spellings (nsec3/cover|match<class>:text-longer-than-255); a HashName result that is
+                 no hash is nsec3/hashname-format (was: a dead harness)
         TOTALITY (Dnssec17): every operation returns a value on every input of the quantifier; every call of the library
         is made under hx.Catch and a panic is a finding with a key of its own (ds/panics:<class> from the vector,
         keytag/panics, nsec3/hashname-panics, nsec3/cover-or-match-panics, validity/panics, keylife/<op>-panics:<alg>),
@@ -43,7 +61,10 @@ GEN     Gen_Dnssec17 modes keytag / ds / nsec3 / cover / validity and Gen_KeyLif
         texts are classes of their own: keylife/relaid-import-fails|panics, relaid-reexport-differs|panics,
         relaid-sign-..., relaid-verify-...:<alg>.
 TV      harness `sec17 record` (seeded random keys, names, salts, intervals, instants, key lives over all combinations;
-        every call under hx.Catch: a panic is an event with `panic` set, judged by the totality clause)
+        every call under hx.Catch: a panic is an event with `panic` set, judged by the totality clause;
+        one ds / hashname / cover name in six is DENSE: labels of up to 63 octets that mostly need an escape, up to the
+        255-octet limit of the wire form, so texts of up to ~1000 characters -- in the library's own form or re-spelt
+        octet by octet (\\DDD / \\X / plain; Trace_Dnssec17 parses the text, it does not trust the recorder))
         -> Trace_Dnssec17 (judges, and writes the hash inputs it derives; for every signature of a key life: public-key
         encoding = RFC 3110/6605 of the standard library's numbers, key tag, and the RFC 4034 3.1.8.1 signed octets;
         kl.relay events (random re-layouts by the recorder, wider than the generated universe: any number of empty lines
@@ -61,7 +82,11 @@ Mutants (checks/mutants/C17), stage that catches each on the quick tier:
   klexer-empty-lines-not-skipped.diff GEN keylife layouts (keylife/relaid-import-fails:<alg>); TV kl.import after kl.relay
   klexer-single-read-into-buffer.diff GEN keylife layouts, reader kinds readplain / read1 (keylife/relaid-import-fails:<alg>,
                                       relaid-reexport-differs:RSA*/2048: a text cut at the buffer end still parses)
-Seeds: C17-17 (ToDS digest-type table with holes: panic for types 0 and 3) GEN ds (ds/panics:undefined-type), TV ds events;
+  tods-owner-text-bounded-by-wire-limit.diff        GEN spell ds (ds/nil-for-defined-type); TV ds events
+  cover-match-name-text-bounded-by-wire-limit.diff  GEN spell cover (nsec3/match-equal-owner..., nsec3/cover:<shape>:inside:text-longer-than-255); TV cover events
+Seeds: C17-19 (HashName: early exit when the TEXT of the name is longer than the 255 octets a NAME may have) GEN spell n3
+  (nsec3/hashname:text-longer-than-255) and cover (nsec3/hashname-format), TV hashname events of dense names (nsec3/hashname-format);
+  C17-17 (ToDS digest-type table with holes: panic for types 0 and 3) GEN ds (ds/panics:undefined-type), TV ds events;
   C17-18 (key-file lexer drops a last line without LF) GEN keylife layouts (keylife/relaid-reexport-differs:ECDSA*,
   relaid-reexport-panics:ED25519*, relaid-verify-rejects-imported-key:ECDSA*), TV kl.import after kl.relay
 """
@@ -70,6 +95,9 @@ import vp
 
 ITERS_Q = "{0, 1, 2, 10, 150, 255, 256, 65534, 65535}"
 ITERS_T = "{0, 1, 2, 10, 150, 255, 256, 2500, 65534, 65535}"
+# mode "spell": octet counts of the spread names; x k = 1..5 labels: all-escaped texts of 253..257 (63 octets), 510..514, 1004 characters
+SPELL_Q = "{1, 5, 31, 62, 63, 64, 80, 126, 127, 200, 245, 250}"
+SPELL_T = "{%s}" % ", ".join(str(p) for p in sorted(set(range(1, 9)) | set(range(29, 35)) | set(range(60, 67)) | {80, 100} | set(range(124, 131)) | {160, 189, 190, 200, 230} | set(range(244, 251))))      # a cfg file takes literal sets only
 
 
 def safe_scratch(ctx):
@@ -169,9 +197,10 @@ def run(ctx):
     iters = ITERS_Q if ctx.quick else ITERS_T
     counts = {}
     jobs = []
-    for mode in ("keytag", "ds", "nsec3", "cover", "validity"):
+    for mode in ("keytag", "ds", "nsec3", "cover", "validity", "spell"):
         def job(mode=mode):
-            counts[mode] = gen(ctx, binp, "Gen_Dnssec17", {"Mode": '"%s"' % mode, "Iters": iters, "KSmall": 5 if ctx.quick else 8, "BigNames": 2 if ctx.quick else 4}, mode)
+            counts[mode] = gen(ctx, binp, "Gen_Dnssec17", {"Mode": '"%s"' % mode, "Iters": iters, "KSmall": 5 if ctx.quick else 8, "BigNames": 2 if ctx.quick else 4,
+                                                           "SpellPs": SPELL_Q if ctx.quick else SPELL_T}, mode)
         jobs.append(job)
 
     def kljob():
@@ -180,8 +209,8 @@ def run(ctx):
     def layjob():       # the round trips through a store x every layout of a private-key text x both import functions
         counts["keylife-layouts"] = gen(ctx, binp, "Gen_KeyLife17", {} if ctx.quick else {"Rich": "TRUE", "Shapes": '{"given", "round", "other", "twice"}'},
                                         "layouts", cfg="Gen_KeyLife17_lay")
-    jobs = [kljob, jobs[0], layjob] + jobs[1:5]                         # the long ones (key lives, key tags) first
-    vp.parallel(jobs, maxpar=5)
+    jobs = [kljob, jobs[0], layjob, jobs[5]] + jobs[1:5]                # the long ones (key lives, key tags, spellings) first
+    vp.parallel(jobs, maxpar=6)
     if ctx.quick:
         tv(ctx, binp, 1800, 2)
     else:
@@ -197,11 +226,12 @@ def run(ctx):
         "the RRSIG signed octets are specified only for the key-life RRset (A records, owner not a wildcard, no names in RDATA); the general canonical form is property C10",
         "BIND private-key text: the layouts claimed equivalent are those BIND itself writes or its reader (dst_parse.c) skips: format line v1.2 / v1.3, the v1.3 timing fields, the mnemonic after the algorithm number, empty lines, the LF after the last line; NOT claimed: CR LF line ends, trailing blanks, ';' comments (the pinned reader refuses the first two)",
         "totality: a panic of KeyTag / ToDS / HashName / Cover / Match / ValidityPeriod / Generate / PrivateKeyString / NewPrivateKey / ReadPrivateKey / Sign / Verify on an input of the property's quantifier is a violation (the statement gives each a value for every input)",
-        "names in recorded events are written in the library's presentation form (UnpackDomainName), fully qualified; one in eight ds/hashname events re-spells some letters as \\DDD",
+        "names in recorded events are written in the library's presentation form (UnpackDomainName), fully qualified; one in eight ds/hashname events re-spells some letters as \\DDD; dense names are re-spelt octet by octet except upper-case letters (their \\DDD spelling is the known class of its own)",
+        "spellings: \\X is used only for printable ASCII octets that are not digits (a raw octet outside ASCII is not text; \\D for a digit is not defined by RFC 1035); in Match / Cover vectors only the labels below the zone cut are re-spelt (the zone's labels are written as in the record's owner: comparing differently spelt labels is property C19)",
     ]
     return ctx.finish(rule="vectors: keytag = flags x protocol x algorithm x every key over {00,ff} up to 5 (thorough: 8) octets + keys of 255/256/257/1024 octets; "
                       "ds = 5 owners x 5 spellings (4 case variants + all-\\DDD upper case) x 11 digest types x 4 keys; nsec3 = 5 names (5 spellings each) x salts 0/1/8/255 x iterations {0,1,2,10,150,255,256,65534,65535}; "
-                      "cover = 5^3 orderings x 7 zone/name pairs x owner-label case; validity = 11 instants x 2 epochs x 12^2 offsets; keylife = every behaviour "
+                      "cover = 5^3 orderings x 7 zone/name pairs x owner-label case; spell = spread names (12 octet counts (thorough 42) x 1..5 labels x 5 octet classes) x 4 spellings through HashName (one vector per name) and ToDS (one per spelling), 5 spreads x 2 classes x 4 spellings x in/out of zone x 3^3 orderings through Match / Cover; validity = 11 instants x 2 epochs x 12^2 offsets; keylife = every behaviour "
                       "ending in a verification x 9 generated algorithm/size combinations (+8 thorough) and x 9 committed RSA size/exponent sets and x 3 (+2) key-tag-colliding pairs where all keys are provided, + fresh-key round trips; keylife-layouts = 2 round trips through a store (thorough 4 shapes) x 48 (72) layouts of the private-key text x NewPrivateKey and 4 kinds of reader for ReadPrivateKey (the 3 unusual readers x 12 layouts; thorough all) x every combination. events: seeded random. "
                       "evaluations = every judged case (vectors per spelling / per algorithm, recorded events, second-stage hash and signature checks); distinct = distinct inputs, all non-trivial")
 
